@@ -29,6 +29,8 @@ Specials == {
   \* comments after the items of a list (a multi-line annotation), one of them containing the comment character itself
   Lit(NumD(N1), <<R("enum", ListV(<<EV(NumD(N1)) @@ [note |-> "one #1"], EV(NumD(N2)), EV(StrD(Sa)) @@ [note |-> "the letter"]>>))>>),
   Obj(<<P(Ka, Lit(NumD(N2), <<OptR, R("enum", ListV(<<EV(NumD(N1)) @@ [note |-> "first"], EV(NumD(N2)) @@ [note |-> "second # not a comment"]>>))>>))>>, <<>>),
+  \* a comment between the opening bracket and the first item: it belongs to no item (Ast ignores the field `lead`); item comments exist for enum lists only
+  Lit(StrD(Sa), <<R("enum", ListV(<<EV(StrD(Sa)) @@ [note |-> "c1"], EV(StrD(Sb)) @@ [note |-> "c2"]>>) @@ [lead |-> "c0"])>>),
   \* or-alternatives named by a format / "any" next to an example of another kind
   Lit(Null, <<R("or", ListV(<<IdV("date"), IdV("null")>>))>>), Lit(NumD(N1), <<R("or", ListV(<<IdV("email"), IdV("integer"), IdV("any")>>))>>),
   Lit(BoolD(TRUE), <<R("or", ListV(<<IdV("uuid"), IdV("boolean")>>))>>), Lit(NumD(N1_5), <<R("or", ListV(<<IdV("datetime"), IdV("float"), IdV("uri")>>))>>),
